@@ -137,7 +137,7 @@ fn read_case(io: &Io, bytes: &[u8], label: &str, probes: &mut Probes) -> Option<
     }
     let art = || json!({"damage": label, "text": String::from_utf8_lossy(&bytes[..bytes.len().min(6000)]), "text_len": bytes.len()});
     let t0 = thread_cpu_secs();
-    let res = guard(|| LefLibrary::open(INP));
+    let res = guard(|| LefLibrary::open(fs.sp(INP)));
     let dt = thread_cpu_secs() - t0;
     // 50 ms + 1 us/byte of *CPU time of this thread*, x100 margin: machine load cannot trip it, only super-linear work can
     if dt * 1e6 > 100.0 * (50_000.0 + bytes.len() as f64) {
@@ -159,7 +159,7 @@ fn read_case(io: &Io, bytes: &[u8], label: &str, probes: &mut Probes) -> Option<
                 fs.plan(OUT, FilePlan { write: Policy { terms: vec![Term { at: (h >> 20) % 64, kind: TermKind::Enospc, sticky: true }], ..Default::default() }, ..Default::default() });
                 probes.hit("save_with_disk_full");
             }
-            match guard(|| l.save(OUT)) {
+            match guard(|| l.save(fs.sp(OUT))) {
                 Err(p) => return Some(panic_violation("LefLibrary::save(of a library the reader returned)", &p, json!({"damage": label, "library": lef_artefact(&l)}))),
                 Ok(Err(_)) => {
                     probes.hit("returned_library_not_writable(Err)");
@@ -167,7 +167,7 @@ fn read_case(io: &Io, bytes: &[u8], label: &str, probes: &mut Probes) -> Option<
                 }
                 Ok(Ok(())) => {}
             }
-            match guard(|| LefLibrary::open(OUT)) {
+            match guard(|| LefLibrary::open(fs.sp(OUT))) {
                 Err(p) => Some(panic_violation("LefLibrary::open(rewritten)", &p, json!({"damage": label, "library": lef_artefact(&l)}))),
                 Ok(Err(e)) => {
                     probes.hit(&format!("rewritten_rejected:{}", truncate(&lef_err_sig(&e), 50)));
